@@ -414,7 +414,11 @@ def run_queries(res):
                         out = out(np.array([0.0, 0.5]))
                     return out
                 expect_accepts(res, "accepts_valid", {"group": "queries", "base": name, "solution": sname, "getter": getter, "id": ok_id}, call, what="query for a known identifier raised")
-                for u in unknown:
+                # node labels and element ids are separate name spaces: an element id is an unknown node, a node label an unknown element
+                ids_here = [c[1] for c in d["components"] if c[0] != "ground"]
+                nodes_here = sorted({n for c in d["components"] for n in c[2]})
+                cross = ids_here if getter == "get_potential" else nodes_here
+                for u in unknown + cross:
                     if getter == "get_potential" and u == "gnd":
                         continue
                     expect_raises(res, "unknown_id_raises:" + sname, {"group": "queries", "base": name, "solution": sname, "getter": getter, "id": u},
